@@ -24,3 +24,10 @@ Theorem C18_source_v1_hash_id : forall (V : Type) (vnil : V) (b32 : string -> st
   V1.ActivationClaims_HashID V vnil imp iss sub b32 hnew hsum hwrite = hash_result (hash_id (hash_of b32 hnew hsum hwrite) iss sub imp).
 Proof. intros V vnil b32 hnew hsum hwrite. exact (src_v1_hash_id vnil b32 hnew hsum hwrite). Qed.
 Print Assumptions C18_source_v1_hash_id.
+
+(* the unknown functions HashID consults: the SHA-256 constructor and the standard (padded) base32 encoder, nothing else *)
+Theorem C18_source_hash_id_consults :
+  V2.ActivationClaims_HashID_consults = ["go_base32_StdEncoding_EncodeToString"; "go_sha256_New"]%list /\
+  V1.ActivationClaims_HashID_consults = ["go_base32_StdEncoding_EncodeToString"; "go_sha256_New"]%list.
+Proof. split; reflexivity. Qed.
+Print Assumptions C18_source_hash_id_consults.
